@@ -3,3 +3,5 @@ pub mod c16;
 pub mod eyes;
 pub mod c20;
 pub mod c08;
+pub mod c18;
+pub mod c19;
